@@ -28,7 +28,8 @@ def impl_shapes(forest):
 
 
 def model_cmd(cfg, events, ops):
-    return [10, enc_cfg(cfg), [enc_event(e) for e in events], ops]
+    # the 4th field of an extend op only says how the implementation is handed the children (Tag / lazy iterable)
+    return [10, enc_cfg(cfg), [enc_event(e) for e in events], [o[:3] if o[0] == 2 else o for o in ops]]
 
 
 def replay(ctx, cfg, events, ops, expected, mres, props):
@@ -101,6 +102,9 @@ def replay(ctx, cfg, events, ops, expected, mres, props):
             if d:
                 ctx.disagree("six links after an editing call ~ Model.Edit / Model.Heap", case, d[:4], None)
                 return
+    if "C01" in props and not ctx.failures:
+        from props import c01 as _c01
+        _c01.empty_clones(ctx, forest, {"events": events, "ops": ops, "step": len(ops) - 1})
     if mres is not None and len(mres) == len(ops) + 2:
         compare_views(ctx, forest, mres[-1], {"events": events, "ops": ops, "step": len(ops) - 1})
 
